@@ -1014,9 +1014,14 @@ func (g *Gen) loopHead(li *loopInfo, st *State, reach string) *State {
 		n := g.freshConst("lh."+a.Name()+"."+sanitize(a.Comment), g.sortOf(t))
 		ns.cells[a] = n
 		g.addFact(g.rangeFact(n, t))
+		if g.isRangeIndexCell(a) {
+			// the hidden index of a range-over-slice loop starts at -1 and is only ever incremented
+			g.addFact("(and (>= " + n + " (- 1)) (< " + n + " 9223372036854775807))")
+		}
 	}
 	if all {
 		g.havocAll(ns, "loop")
+		g.loopFrame(li, st, ns, heaps)
 	} else {
 		for _, k := range sortedKeys(heaps) {
 			g.heapGet(ns, k, g.heapSortsM[k])
@@ -1067,6 +1072,51 @@ func (g *Gen) loopHead(li *loopInfo, st *State, reach string) *State {
 	co.Cover = true
 	g.loopHeadState[li] = ns
 	return ns
+}
+
+// isRangeIndexCell: a is the hidden index cell go/ssa creates for `for i, x := range slice`, and - checked
+// here, not assumed - every store to it writes the constant -1 or (its own value + 1); such a cell
+// is never below -1 and, being smaller than a length after every increment, below MaxInt at the head.
+func (g *Gen) isRangeIndexCell(a *ssa.Alloc) bool {
+	if a.Comment != "rangeindex" || a.Heap {
+		return false
+	}
+	for _, r := range *a.Referrers() {
+		switch x := r.(type) {
+		case *ssa.UnOp: // load
+		case *ssa.Store:
+			if x.Addr != a {
+				return false
+			}
+			if c, ok := x.Val.(*ssa.Const); ok && c.Value != nil && c.Value.ExactString() == "-1" {
+				continue
+			}
+			bo, ok := x.Val.(*ssa.BinOp)
+			if !ok || bo.Op != token.ADD {
+				return false
+			}
+			ld, ok1 := bo.X.(*ssa.UnOp)
+			one, ok2 := bo.Y.(*ssa.Const)
+			if !ok1 || !ok2 || ld.X != a || one.Value == nil || one.Value.ExactString() != "1" {
+				return false
+			}
+			// the incremented value is compared (<) with a length at the end of the same block and the
+			// loop goes on only if it is smaller: the cell is below MaxInt whenever the head is reached
+			blk := x.Block()
+			iff, okIf := blk.Instrs[len(blk.Instrs)-1].(*ssa.If)
+			if !okIf {
+				return false
+			}
+			cmp, okc := iff.Cond.(*ssa.BinOp)
+			if !okc || cmp.Op != token.LSS || cmp.X != bo {
+				return false
+			}
+		case *ssa.DebugRef:
+		default:
+			return false
+		}
+	}
+	return true
 }
 
 func (g *Gen) backEdge(li *loopInfo, st *State, cond string, from *ssa.BasicBlock) {
@@ -2006,6 +2056,158 @@ func (g *Gen) canPrecede(e, c ssa.Instruction) bool {
 		stack = append(stack, b.Succs...)
 	}
 	return false
+}
+
+// calleesKeepHeap: may the heap `k` (a struct-field heap "S...." or an element heap of a struct slice
+// "E.S....") be kept across a call that resolves to these callees? (type- and call-graph-based frame
+// rules; see the trusted-base entries they record)
+func (g *Gen) calleesKeepHeap(callees []*ssa.Function, k string) bool {
+	if len(callees) == 0 {
+		return false
+	}
+	if strings.HasPrefix(k, "E.S.") {
+		for _, c := range callees {
+			if g.prog.mayWriteElems(c, strings.TrimPrefix(k, "E.")) {
+				return false
+			}
+		}
+		return true
+	}
+	if !strings.HasPrefix(k, "S.") {
+		return false
+	}
+	if owner, ok := g.fieldOwner[k]; ok && !g.prog.fieldAddrTaken(k) {
+		reach := false
+		for _, c := range callees {
+			if g.prog.mayReachPackage(c, owner) || (g.prog.reflectiveWriter(c) && exportedFieldKey(strings.TrimPrefix(k, "S."))) {
+				reach = true
+				break
+			}
+		}
+		if !reach {
+			return true
+		}
+	}
+	for _, c := range callees {
+		if g.prog.mayWriteField(c, k) {
+			return false
+		}
+	}
+	return true
+}
+
+// loopFrame: after a loop head was havoc'd wholesale because the body makes calls without a frame,
+// the heaps those calls cannot write (same rules as at a single call) are identified with their
+// value at loop entry, provided nothing in the body writes them directly; objects allocated by this
+// function before the loop that never escape and are lent to no call of the body keep the fields
+// the body does not store to.
+func (g *Gen) loopFrame(li *loopInfo, pre, ns *State, direct map[string]bool) {
+	var calls []ssa.CallInstruction
+	resolvable := true
+	var calleeSets [][]*ssa.Function
+	for b := range li.blocks {
+		for _, in := range b.Instrs {
+			ci, ok := in.(ssa.CallInstruction)
+			if !ok {
+				continue
+			}
+			if _, _, _, all := g.callWrites(ci); !all {
+				continue // its writes are in `direct`
+			}
+			calls = append(calls, ci)
+			var callees []*ssa.Function
+			common := ci.Common()
+			if call, isCall := ci.(*ssa.Call); isCall {
+				if callee := common.StaticCallee(); callee != nil && !common.IsInvoke() {
+					callees = []*ssa.Function{callee}
+				} else if common.IsInvoke() {
+					callees = g.prog.calleesAt(g.fn, call)
+				}
+			}
+			if len(callees) == 0 {
+				resolvable = false
+			}
+			calleeSets = append(calleeSets, callees)
+		}
+	}
+	heapAt := func(stt *State, k string) string {
+		if v, ok := stt.heaps[k]; ok {
+			return v
+		}
+		return g.heapInit(k, g.heapSortsM[k])
+	}
+	if resolvable {
+		for _, k := range sortedKeys(ns.heaps) {
+			if direct[k] || !(strings.HasPrefix(k, "S.") || strings.HasPrefix(k, "E.S.")) {
+				continue
+			}
+			keep := true
+			for _, cs := range calleeSets {
+				if !g.calleesKeepHeap(cs, k) {
+					keep = false
+					break
+				}
+			}
+			if keep {
+				ns.heaps[k] = heapAt(pre, k)
+				g.trusted["loop frame: a heap that no statement of a loop body writes and no call of the body can write (field / element frame rules) has its loop-entry value at the loop head"] = true
+			}
+		}
+	}
+	// objects private to this function
+	hdr := li.header.Instrs[0]
+	var pvals []ssa.Value
+	for v := range g.vals {
+		if a, ok := v.(*ssa.Alloc); ok && a.Heap && !li.blocks[a.Block()] {
+			pvals = append(pvals, v)
+		}
+	}
+	sort.Slice(pvals, func(i, j int) bool {
+		if pvals[i].Pos() != pvals[j].Pos() {
+			return pvals[i].Pos() < pvals[j].Pos()
+		}
+		return pvals[i].Name() < pvals[j].Name()
+	})
+	for _, v := range pvals {
+		a := v.(*ssa.Alloc)
+		sv := g.vals[v]
+		if sv == nil || sv.S == "" || sv.LV != nil {
+			continue
+		}
+		sn, su := g.structInfo(a.Type().(*types.Pointer).Elem())
+		if su == nil {
+			continue
+		}
+		private := true
+		for _, e := range g.escapingUses(a) {
+			if g.canPrecede(e, hdr) {
+				private = false
+				break
+			}
+		}
+		for _, c := range calls {
+			if g.lentAt[a][c] {
+				private = false
+			}
+		}
+		areach, okr := g.reach[a.Block()]
+		if !private || !okr {
+			continue
+		}
+		for i := 0; i < su.NumFields(); i++ {
+			k := g.fieldHeapKey(sn, su.Field(i).Name())
+			if direct[k] {
+				continue
+			}
+			cur, ok := ns.heaps[k]
+			if !ok || cur == heapAt(pre, k) {
+				continue
+			}
+			// only on executions that went through the allocation (another path may have numbered a
+			// different object the same way)
+			g.addFact(implies(areach, fmt.Sprintf("(= (select %s %s) (select %s %s))", cur, sv.S, heapAt(pre, k), sv.S)))
+		}
+	}
 }
 
 func (g *Gen) keepPrivate(preHeaps map[string]string, st *State, at ssa.Instruction) {
